@@ -130,9 +130,9 @@ class CallMixin:
                         if f.startswith("$"):
                             continue
                         if st.heap.schema[f] == "py":
-                            k = ("fld", f, v.z.get_id())
+                            k = ("fld", f, zid(v.z))
                             if k in st.ghost:
-                                st.ghost[("fld", f, new.z.get_id())] = st.ghost[k]
+                                st.ghost[("fld", f, zid(new.z))] = st.ghost[k]
                             continue
                         st.heap.put(f, new.z, st.heap.get(f, v.z))
                         if st.heap.schema[f] in ("optint", "optstr") or str(st.heap.schema[f]).startswith("opt"):
@@ -231,7 +231,7 @@ class CallMixin:
                 elif kind == "bool":
                     st.heap.put(fk, ref.z, z3.BoolVal(False))
                 elif kind == "py" and fd.label == fd.LABEL_REPEATED:
-                    st.ghost[("fld", fk, ref.z.get_id())] = ()        # an empty repeated field (immutable: see append)
+                    st.ghost[("fld", fk, zid(ref.z))] = ()        # an empty repeated field (immutable: see append)
                 elif kind in ("seq[ref]", "seq[str]") and fd.label == fd.LABEL_REPEATED:
                     st.heap.put(fk, ref.z, empty_container(kind))
             for k, v in kwargs.items():
@@ -566,7 +566,7 @@ class CallMixin:
             ids = [st.classid(c) for c in yes]
             cond = z3.Or([st.heap.get("$cls", v.z) == i for i in ids])
             for s2, b in self.branch(st, cond, f"isinstance@{getattr(node, 'lineno', 0)}"):
-                s2.ghost[("cls", v.z.get_id())] = tuple(yes if b else no)
+                s2.ghost[("cls", zid(v.z))] = tuple(yes if b else no)
                 out.append((s2, b))
             return out
         if isinstance(v, SInt):
@@ -605,7 +605,7 @@ class CallMixin:
                 return [(st, SInt(z3.Function("id", z3.IntSort(), z3.IntSort())(self_.z)))]
             if name == "WhichOneof" and isinstance(self_, SRef) and args and isinstance(args[0], str):
                 # protobuf oneof: which member is set is ghost state of the record (set by the scenario / by construction)
-                k = ("oneof", self_.z.get_id(), args[0])
+                k = ("oneof", zid(self_.z), args[0])
                 if k in st.ghost:
                     return [(st, st.ghost[k])]
                 raise Unsupported(f"WhichOneof({args[0]!r}) of a record whose variant is not known", node)
